@@ -237,3 +237,48 @@ SPECS["C04"] = {
          "limits": {"quick": {"timeout": "600s"}}},
     ],
 }
+
+
+SPECS["C11"] = {
+    "explanation": "The real CloudHandler (constructed by NewCloudHandler, channels buffered so that the dispatching side and the owner loop run in one thread) "
+                   "is driven over two sources by symbolic commands {metric batch from s, event from s, the owner loop hands the next pending source to the cache, "
+                   "the lookup for s completes with an instance or nothing, stats emission}; the cache's Peek result (miss / negative hit / positive hit) is "
+                   "symbolic at every call. Ghost state records what is parked and which lookups are outstanding. STEP: one command from an ARBITRARY state "
+                   "satisfying the representation invariant (gauges = true numbers; every source with parked data has exactly one lookup pending or "
+                   "outstanding; the event wait-group counter = parked events) - covers histories of any length. HIST: 2..4 commands from the real initial "
+                   "state. Asserted: a datapoint/event leaves at once iff its source is known or empty, else is parked; when the lookup completes everything "
+                   "parked for the source leaves exactly once (counter totals and event counts compared), tagged and re-sourced iff an instance was found; no "
+                   "second lookup while one is outstanding; emitted gauges equal the true numbers; the invariant is re-established.",
+    "bounds": {"quick": "2 sources, <= 2 parked events per source in the arbitrary state; histories of <= 3 commands", "thorough": "histories of <= 4 commands"},
+    "outside": ["real concurrency between dispatchers and the owner goroutine (the owner's select loop serialises them; `go updateAndDispatch*` runs inline)",
+                "context cancellation during dispatch"],
+    "assumptions": STUBS_COMMON + [MATH_NOTE, "the step harness's invariant is an exact description of the handler state over the ghost variables; a step counterexample replays natively from that state"],
+    "jobs": [
+        {"pkg": "./pkg/statsd", "harness": "pkg/statsd", "mode": "math",
+         "entries": {"quick": ["VerifC11_Step", "VerifC11_Hist2", "VerifC11_Hist3", "VerifC11_Twin"],
+                     "thorough": ["VerifC11_Step", "VerifC11_Hist2", "VerifC11_Hist3", "VerifC11_Hist4", "VerifC11_Twin"]},
+         "reach": {"VerifC11_Step": ["emit", "event-hit", "event-parked", "events-released", "lookup-sent", "metric-hit", "metric-parked", "metrics-released"]},
+         "twin": {"VerifC11_Twin": True},
+         "limits": {"quick": {"timeout": "600s"}, "thorough": {"timeout": "1800s"}}},
+    ],
+}
+
+SPECS["C12"] = {
+    "explanation": "One-step inductive harnesses on the real CachedCloudProvider over two sources: arbitrary cache (entry absent / negative / positive, symbolic last "
+                   "access and expiry instants, symbolic refresh/idle/TTL options) under the invariant 'positive/negative gauges = numbers of such entries'. "
+                   "INFO: handleInstanceInfo with an instance or nil at a symbolic now: the answer is queued for return exactly once and unchanged; a positive "
+                   "entry answered with nil keeps serving the old instance; expiry = now + the TTL of its kind; refresh counted once. REFRESH: doRefresh at a "
+                   "symbolic t evicts exactly the entries with t - lastAccess > idle and re-queues exactly the remaining ones with t after their expiry. PEEK: "
+                   "hit iff cached, serves the cached instance, refreshes last access. LOOKUP: doLookup over 1..3 sources with a provider stub returning nil / "
+                   "partial / full maps with or without an error: one query, exactly one answer per requested source, in order, carrying the provider's result.",
+    "bounds": {"quick": "2 sources; all option values in [0, 24h]/[0, 240h]; instants between 2020 and 2030", "thorough": "same"},
+    "outside": ["the 10 ms batching timer and rate limiter loop in cloudProviderLookupDispatcher.run", "real concurrency between Peek and the owner goroutine", "the Run loop's channel hand-off of queued answers"],
+    "assumptions": STUBS_COMMON + [MATH_NOTE, TIME_MODEL],
+    "jobs": [
+        {"pkg": "./pkg/cachedinstances/cloudprovider", "harness": "pkg/cachedinstances/cloudprovider", "mode": "math",
+         "entries": {"quick": ["VerifC12_Info", "VerifC12_Refresh", "VerifC12_Peek", "VerifC12_Lookup", "VerifC12_Twin"]},
+         "reach": {"VerifC12_Info": ["kept-on-error", "positive-answer"], "VerifC12_Refresh": ["evicted", "requeued"], "VerifC12_Peek": ["hit"], "VerifC12_Lookup": ["lookup"]},
+         "twin": {"VerifC12_Twin": True},
+         "limits": {"quick": {"timeout": "600s"}, "thorough": {"timeout": "600s"}}},
+    ],
+}
